@@ -322,9 +322,7 @@ class CSSStyleDeclaration(CSS2Properties, cssutils.util.Base2):
             # the unexpected token itself may open a (, [ or { which has to be
             # closed before the end of the declaration is looked for
             ignored = self._valuestr(
-                self._tokensupto2(
-                    tokenizer, starttoken=token, propertyvalueendonly=True
-                )
+                self._tokensupto2(tokenizer, starttoken=token, semicolon=True)
             )
             self._log.error(
                 'CSSStyleDeclaration: Unexpected token, ignoring upto %r.' % ignored,
